@@ -260,8 +260,16 @@ def run_jobs(chk, jobs, parallel=5, workers=4):
             p = chk.part(job['part'])
             p['spec_states'] = p.get('spec_states', 0) + res.distinct
             if job.get('replay'):
+                before = chk.replayed + chk.evaluations
+                nstates = 0
                 for st in res.states():
+                    nstates += 1
                     job['replay'](st)
+                # vacuity gate: a model that explored nothing, or a replay that exercised no call of the
+                # real code, is a machinery failure - never a silent pass
+                if nstates == 0 or chk.replayed + chk.evaluations == before:
+                    raise MachineryError('vacuous run: job %s (%s) explored %d states and replayed nothing'
+                                         % (job['part'], job['module'], nstates))
             if job.get('after'):
                 job['after'](res)
     finally:
